@@ -285,6 +285,9 @@ func (p ParametersLiteral) GetCoeffsToSlotsFactorizationDepthAndLogScales(LogSlo
 			CoeffsToSlotsFactorizationDepthAndLogScales[i] = []int{DefaultCoeffsToSlotsLogScale}
 		}
 	} else {
+		if len(p.CoeffsToSlotsFactorizationDepthAndLogScales) == 0 {
+			return nil, fmt.Errorf("field CoeffsToSlotsFactorizationDepthAndLogScales cannot be empty")
+		}
 		var depth int
 		for _, level := range p.CoeffsToSlotsFactorizationDepthAndLogScales {
 			for range level {
